@@ -130,7 +130,7 @@ def main():
             "guard": "HWLOC_VERIF",
             "enable": "tools/build.sh compiles /repo/hwloc/*.c from the current working tree with -DHWLOC_VERIF (and ASan+UBSan) into a scratch static archive; nothing is built inside /repo",
             "baseline_off_cmd": "cd /repo && export PATH=$PATH:/root/miniconda/bin && make -j8 >/dev/null && make -k check -j8",
-            "source_commits": ["d57d9f5", "d82b109", "21d6044", "5a9a579"],
+            "source_commits": ["0af93bf", "7906089", "afe8a5f", "b332524"],
             "add_only": True,
         },
         "engines": [
